@@ -919,4 +919,596 @@ theorem step_end (M : Option (List Str)) (n en : Nat) {c : List Setting} (hc : (
     · rw [stepOk_iff hcn]
       exact ⟨hin, hnd⟩
 
+/-! ## D. the output table of the loop as a function of the key -/
+
+theorem removeLoop_nil (M : Option (List Str)) (st en n : Nat) (R : List Setting) :
+    removeLoop M st en n R [] = [] := rfl
+
+theorem removeLoop_cons (M : Option (List Str)) (st en n : Nat) (R : List Setting) (idx : Nat) (p : Point)
+    (cur : List Setting) (rest : List (Nat × Point × List Setting)) :
+    removeLoop M st en n R ((idx, p, cur) :: rest) =
+      if idx < st then (idx, p) :: removeLoop M st en n R rest
+      else if idx > en then (idx, p) :: rest.map (fun t => (t.1, t.2.1))
+      else if idx = st then
+        (idx, (removeAtStart M p R cur).1) :: removeLoop M st en n (removeAtStart M p R cur).2 rest
+      else if idx = en then (idx, endPt n en p R cur) :: removeLoop M st en n (removeRems p.rem R).2 rest
+      else (idx, midPt M p R) :: removeLoop M st en n (midR M p R) rest := by
+  by_cases h1 : idx < st
+  · simp [removeLoop, h1]
+  · by_cases h2 : idx > en
+    · simp [removeLoop, h1, h2]
+    · by_cases h3 : idx = st
+      · simp [removeLoop, h3]
+      · by_cases h4 : idx = en
+        · subst h4
+          simp only [removeLoop, h1, h2, h3, if_false, if_true, endPt]
+          by_cases h5 : idx ≠ n ∧ (!(removeRems p.rem R).2.isEmpty) = true
+          · rw [if_pos h5, if_pos h5]
+          · rw [if_neg h5, if_neg h5]
+        · simp only [removeLoop, h1, h2, h3, h4, if_false, midPt, midR]
+
+theorem removeLoop_keys (M : Option (List Str)) (st en n : Nat) (R : List Setting)
+    (L : List (Nat × Point × List Setting)) :
+    (removeLoop M st en n R L).map (·.1) = L.map (·.1) := by
+  induction L generalizing R with
+  | nil => rfl
+  | cons t L ih =>
+    obtain ⟨idx, p, cur⟩ := t
+    rw [removeLoop_cons]
+    split
+    · simp [ih]
+    · split
+      · simp [List.map_map]
+      · split
+        · simp [ih]
+        · split
+          · simp [ih]
+          · simp [ih]
+
+def tag (A : Nat → List Setting) (f : Fmts) : List (Nat × Point × List Setting) :=
+  f.map (fun kp => (kp.1, kp.2, A kp.1))
+
+theorem tag_cons (A : Nat → List Setting) (k : Nat) (p : Point) (f : Fmts) :
+    tag A ((k, p) :: f) = (k, p, A k) :: tag A f := rfl
+
+theorem tag_untag (A : Nat → List Setting) (f : Fmts) : (tag A f).map (fun t => (t.1, t.2.1)) = f := by
+  unfold tag
+  rw [List.map_map]
+  have : ((fun t : Nat × Point × List Setting => (t.1, t.2.1)) ∘ fun kp : Nat × Point => (kp.1, kp.2, A kp.1)) = id := by
+    funext kp; rfl
+  rw [this, List.map_id]
+
+theorem tag_keys (A : Nat → List Setting) (f : Fmts) : (tag A f).map (·.1) = f.map (·.1) := by
+  unfold tag
+  rw [List.map_map]
+  rfl
+
+/-- what the new table holds under key `k`, in terms of the old table `g` -/
+def SpecAt (M : Option (List Str)) (st en n : Nat) (g : Nat → Point) (k : Nat) (q : Point) : Prop :=
+  (k < st → q = g k) ∧
+  (k = st → q = (removeAtStart M (g k) [] (bef g (k + 1))).1) ∧
+  (st < k → k < en → ∃ R, R.Perm ((bef g k).filter (sel M)) ∧ q = midPt M (g k) R) ∧
+  (st < k → k = en → ∃ R, R.Perm ((bef g k).filter (sel M)) ∧ q = endPt n en (g k) R (bef g (k + 1))) ∧
+  (en < k → q = g k)
+
+theorem midPt_empty (M : Option (List Str)) (R : List Setting) : midPt M {} R = {} := rfl
+
+theorem contains_cons_lt {k0 : Nat} {p0 : Point} {rest : Fmts} {j : Nat}
+    (h : Fmts.contains ((k0, p0) :: rest) j = true) (hj : k0 ≠ j) : k0 < j ∧ rest.contains j = true := by
+  unfold Fmts.contains at h ⊢
+  rw [Fmts.get?_cons] at h
+  simp only [hj, if_false] at h
+  by_cases h2 : j < k0
+  · simp [h2] at h
+  · simp only [h2, if_false] at h
+    exact ⟨by omega, h⟩
+
+theorem contains_cons_le {k0 : Nat} {p0 : Point} {rest : Fmts} {j : Nat}
+    (h : Fmts.contains ((k0, p0) :: rest) j = true) : k0 ≤ j := by
+  by_cases e : k0 = j
+  · omega
+  · exact Nat.le_of_lt (contains_cons_lt h e).1
+
+theorem toFun_cons_cases {P : Nat → Point → Prop} {lo k0 : Nat} {q0 : Point} {out : Fmts}
+    (h1 : ∀ k, lo ≤ k → k < k0 → P k {}) (h2 : P k0 q0)
+    (h3 : ∀ k, k0 + 1 ≤ k → P k (Fmts.toFun out k)) :
+    ∀ k, lo ≤ k → P k (Fmts.toFun ((k0, q0) :: out) k) := by
+  intro k hk
+  rw [toFun_cons]
+  by_cases e : k0 = k
+  · subst e; simpa using h2
+  · by_cases e2 : k < k0
+    · simp only [e, e2, if_true, if_false]; exact h1 k hk e2
+    · simp only [e, e2, if_false]; exact h3 k (by omega)
+
+theorem removeLoop_spec (M : Option (List Str)) (st en n : Nat) (g : Nat → Point) (hse : st < en)
+    (hnd : ∀ k, (ids (bef g k)).Nodup) (hok : ∀ k, stepOk (bef g k) (g k).rem = true) :
+    ∀ (f : Fmts) (lo : Nat) (R : List Setting), SortedKeys f → Fmts.LB lo f →
+      (∀ k, lo ≤ k → Fmts.toFun f k = g k) →
+      (lo ≤ st → f.contains st = true) → (lo ≤ en → f.contains en = true) →
+      (lo ≤ st → R = []) → (st < lo → lo ≤ en → R.Perm ((bef g lo).filter (sel M))) →
+      ∀ k, lo ≤ k →
+        SpecAt M st en n g k (Fmts.toFun (removeLoop M st en n R (tag (fun k => bef g (k + 1)) f)) k) := by
+  intro f
+  induction f with
+  | nil =>
+    intro lo R _ _ hg hcs hce _ _ k hk
+    have h1 : ¬ lo ≤ st := fun h => by simpa [Fmts.contains, Fmts.get?] using hcs h
+    have h2 : ¬ lo ≤ en := fun h => by simpa [Fmts.contains, Fmts.get?] using hce h
+    have e : g k = {} := by rw [← hg k hk]; rfl
+    refine ⟨fun h => by omega, fun h => by omega, fun _ h => by omega, fun _ h => by omega, fun _ => ?_⟩
+    rw [e]; rfl
+  | cons kp rest ih =>
+    obtain ⟨k0, p0⟩ := kp
+    intro lo R hs hlb hg hcs hce hR0 hRP
+    have hk0 : lo ≤ k0 := hlb (k0, p0) (by simp)
+    have hp0 : p0 = g k0 := by rw [← hg k0 hk0, toFun_cons]; simp
+    have hrest : SortedKeys rest := Fmts.sorted_tail hs
+    have hlb' : Fmts.LB (k0 + 1) rest := Fmts.LB_tail_of_sorted hs
+    have hg' : ∀ k, k0 + 1 ≤ k → Fmts.toFun rest k = g k := by
+      intro k hk
+      rw [← hg k (by omega), toFun_cons]
+      have h3 : ¬ k0 = k := by omega
+      have h4 : ¬ k < k0 := by omega
+      simp [h3, h4]
+    have hgap : ∀ j, lo ≤ j → j < k0 → g j = {} := by
+      intro j h1 h2
+      rw [← hg j h1, toFun_cons]
+      have h3 : ¬ k0 = j := by omega
+      simp [h3, h2]
+    have hbef : bef g k0 = bef g lo := bef_skip' g hk0 hgap
+    have hst0 : lo ≤ st → k0 ≤ st := fun h => contains_cons_le (hcs h)
+    have hen0 : lo ≤ en → k0 ≤ en := fun h => contains_cons_le (hce h)
+    have hcs' : k0 + 1 ≤ st → Fmts.contains rest st = true := fun h =>
+      (contains_cons_lt (hcs (by omega)) (by omega)).2
+    have hce' : k0 + 1 ≤ en → Fmts.contains rest en = true := fun h =>
+      (contains_cons_lt (hce (by omega)) (by omega)).2
+    -- absent keys below the head
+    have hlow : ∀ k, lo ≤ k → k < k0 → SpecAt M st en n g k {} := by
+      intro k h1 h2
+      have e : g k = {} := hgap k h1 h2
+      refine ⟨fun _ => e.symm, fun h => ?_, fun _ _ => ?_, fun _ h => ?_, fun _ => e.symm⟩
+      · have := hst0 (by omega); omega
+      · exact ⟨_, List.Perm.refl _, by rw [e, midPt_empty]⟩
+      · by_cases hl : lo ≤ en
+        · have := hen0 hl; omega
+        · omega
+    rw [tag_cons, removeLoop_cons]
+    by_cases c1 : k0 < st
+    · simp only [c1, if_true]
+      apply toFun_cons_cases hlow
+      · exact ⟨fun _ => hp0, fun h => by omega, fun h => by omega, fun h => by omega, fun h => by omega⟩
+      · exact ih (k0 + 1) R hrest hlb' hg' hcs' hce' (fun _ => hR0 (by omega)) (fun h => by omega)
+    · by_cases c2 : k0 > en
+      · simp only [c1, c2, if_true, if_false]
+        rw [tag_untag]
+        apply toFun_cons_cases hlow
+        · exact ⟨fun h => by omega, fun h => by omega, fun _ h => by omega, fun _ h => by omega, fun _ => hp0⟩
+        · intro k hk
+          rw [hg' k hk]
+          exact ⟨fun h => by omega, fun h => by omega, fun _ h => by omega, fun _ h => by omega, fun _ => rfl⟩
+      · by_cases c3 : k0 = st
+        · subst c3
+          simp only [c1, c2, if_true, if_false]
+          have hRnil : R = [] := hR0 (by omega)
+          subst hRnil
+          have hss := step_start M (hnd k0) (g k0) (by rw [← bef_succ]; exact hnd (k0 + 1)) (hok k0)
+          rw [← bef_succ] at hss
+          subst hp0
+          apply toFun_cons_cases hlow
+          · exact ⟨fun h => by omega, fun _ => rfl, fun h => by omega, fun h => by omega, fun h => by omega⟩
+          · apply ih (k0 + 1) _ hrest hlb' hg' hcs' hce' (fun h => by omega)
+            intro _ _
+            rw [hss.2.2]
+        · have hstlo : st < lo := by
+            by_cases h : lo ≤ st
+            · have := hst0 h; omega
+            · omega
+          have hRk0 : R.Perm ((bef g k0).filter (sel M)) := by
+            rw [hbef]; exact hRP hstlo (by omega)
+          by_cases c4 : k0 = en
+          · subst c4
+            simp only [c1, c2, c3, if_true, if_false]
+            apply toFun_cons_cases hlow
+            · subst hp0
+              exact ⟨fun h => by omega, fun h => by omega, fun _ h => by omega,
+                fun _ _ => ⟨R, hRk0, rfl⟩, fun h => by omega⟩
+            · exact ih (k0 + 1) _ hrest hlb' hg' hcs' hce' (fun h => by omega) (fun _ h => by omega)
+          · simp only [c1, c2, c3, c4, if_false]
+            apply toFun_cons_cases hlow
+            · subst hp0
+              exact ⟨fun h => by omega, fun h => by omega, fun _ _ => ⟨R, hRk0, rfl⟩,
+                fun _ h => by omega, fun h => by omega⟩
+            · subst hp0
+              apply ih (k0 + 1) _ hrest hlb' hg' hcs' hce' (fun h => by omega)
+              intro _ _
+              have := (step_mid M (hnd k0) (g k0) (hok k0) hRk0).2.2
+              rwa [← bef_succ] at this
+
+/-! ## E. induction on the index -/
+
+section Index
+
+variable (M : Option (List Str)) (st en n : Nat) (g g' : Nat → Point)
+variable (hse : st < en)
+variable (hnd : ∀ k, (ids (bef g k)).Nodup) (hok : ∀ k, stepOk (bef g k) (g k).rem = true)
+variable (hclosed : en = n → bef g (en + 1) = [])
+variable (hspec : ∀ k, SpecAt M st en n g k (g' k))
+
+include hspec in
+theorem bef_before : ∀ k, k ≤ st → bef g' k = bef g k := by
+  intro k
+  induction k with
+  | zero => intro _; rfl
+  | succ k ih =>
+    intro hk
+    rw [bef_succ, bef_succ, ih (by omega), (hspec k).1 (by omega)]
+
+include hse hnd hok hspec in
+theorem bef_inside : ∀ k, st < k → k ≤ en → bef g' k = (bef g k).filter (nsel M) := by
+  intro k
+  induction k with
+  | zero => intro h; omega
+  | succ k ih =>
+    intro h1 h2
+    rw [bef_succ, bef_succ]
+    by_cases e : k = st
+    · subst e
+      rw [bef_before M k en n g g' hspec k (Nat.le_refl _), (hspec k).2.1 rfl]
+      rw [bef_succ g k]
+      exact (step_start M (hnd k) (g k) (by rw [← bef_succ]; exact hnd (k + 1)) (hok k)).1
+    · obtain ⟨R, hR, hq⟩ := (hspec k).2.2.1 (by omega) (by omega)
+      rw [ih (by omega) (by omega), hq]
+      exact (step_mid M (hnd k) (g k) (hok k) hR).1
+
+include hse hnd hok hclosed hspec in
+theorem bef_after : ∀ k, en < k → bef g' k = bef g k := by
+  intro k
+  induction k with
+  | zero => intro h; omega
+  | succ k ih =>
+    intro h1
+    rw [bef_succ, bef_succ]
+    by_cases e : k = en
+    · subst e
+      obtain ⟨R, hR, hq⟩ := (hspec k).2.2.2.1 hse rfl
+      rw [bef_inside M st k n g g' hse hnd hok hspec k hse (Nat.le_refl _), hq, bef_succ]
+      exact (step_end M n k (hnd k) (g k) (by rw [← bef_succ]; exact hnd (k + 1)) (hok k) hR
+        (fun h => by rw [← bef_succ]; exact hclosed h)).1
+    · rw [ih (by omega), (hspec k).2.2.2.2 (by omega)]
+
+include hse hnd hok hclosed hspec in
+theorem ok_new : ∀ k, stepOk (bef g' k) (g' k).rem = true := by
+  intro k
+  by_cases c1 : k < st
+  · rw [bef_before M st en n g g' hspec k (by omega), (hspec k).1 c1]
+    exact hok k
+  · by_cases c2 : k = st
+    · subst c2
+      rw [bef_before M k en n g g' hspec k (Nat.le_refl _), (hspec k).2.1 rfl, bef_succ]
+      exact (step_start M (hnd k) (g k) (by rw [← bef_succ]; exact hnd (k + 1)) (hok k)).2.1
+    · by_cases c3 : k < en
+      · obtain ⟨R, hR, hq⟩ := (hspec k).2.2.1 (by omega) c3
+        rw [bef_inside M st en n g g' hse hnd hok hspec k (by omega) (by omega), hq]
+        exact (step_mid M (hnd k) (g k) (hok k) hR).2.1
+      · by_cases c4 : k = en
+        · subst c4
+          obtain ⟨R, hR, hq⟩ := (hspec k).2.2.2.1 hse rfl
+          rw [bef_inside M st k n g g' hse hnd hok hspec k hse (Nat.le_refl _), hq, bef_succ]
+          exact (step_end M n k (hnd k) (g k) (by rw [← bef_succ]; exact hnd (k + 1)) (hok k) hR
+            (fun h => by rw [← bef_succ]; exact hclosed h)).2
+        · rw [bef_after M st en n g g' hse hnd hok hclosed hspec k (by omega), (hspec k).2.2.2.2 (by omega)]
+          exact hok k
+
+end Index
+
+/-! ## F. assembling: the value returned by `remove_formatting` -/
+
+theorem sliceIdx_le (n : Nat) (v : Option Int) (d : Nat) (hd : d ≤ n) : sliceIdx n v d ≤ n := by
+  unfold sliceIdx
+  cases v with
+  | none => exact hd
+  | some v =>
+    simp only
+    split
+    · omega
+    · exact Nat.min_le_right _ _
+
+/-- the old table as a function of the key -/
+def gOf (x : AStr) : Nat → Point := Fmts.toFun x.fmts
+
+def f0 (x : AStr) (st en : Nat) : Fmts := (x.fmts.ensure st).ensure en
+
+def outOf (x : AStr) (M : Option (List Str)) (st en : Nat) : Fmts :=
+  removeLoop M st en x.len [] (replay (f0 x st en))
+
+def newFmts (x : AStr) (M : Option (List Str)) (st en : Nat) : Fmts :=
+  (outOf x M st en).filter (fun kp => kp.2.nonEmpty)
+
+theorem removeFormatting_eq (x : AStr) (M : Option (List Str)) (start end_ : Option Int)
+    (h : ¬ (sliceIdx x.len start 0 ≥ x.len ∨ sliceIdx x.len end_ x.len ≤ sliceIdx x.len start 0)) :
+    x.removeFormatting M start end_ =
+      { x with fmts := newFmts x M (sliceIdx x.len start 0) (sliceIdx x.len end_ x.len) } := by
+  unfold AStr.removeFormatting
+  simp only [h, if_false]
+  rfl
+
+theorem mem_settings {f : Fmts} {s : Setting} :
+    s ∈ f.settings ↔ ∃ kp ∈ f, s ∈ kp.2.add ∨ s ∈ kp.2.rem := by
+  unfold Fmts.settings
+  simp [List.mem_flatMap]
+
+theorem toFun_settings {f : Fmts} {k : Nat} {s : Setting}
+    (h : s ∈ (Fmts.toFun f k).add ∨ s ∈ (Fmts.toFun f k).rem) : s ∈ f.settings := by
+  rcases toFun_mem_or f k with e | hm
+  · rw [e] at h; simp at h
+  · exact mem_settings.mpr ⟨_, hm, h⟩
+
+section WFx
+
+variable {x : AStr} (hx : WF x)
+
+include hx in
+theorem wf_nodup : ∀ k, (ids (bef (gOf x) k)).Nodup := by
+  intro k
+  cases k with
+  | zero => simp [bef_zero, ids]
+  | succ k =>
+    unfold gOf
+    rw [← active_eq_bef hx.sorted]
+    exact hx.nodup k
+
+include hx in
+theorem wf_gt {k : Nat} (hk : x.len < k) : gOf x k = {} := by
+  rcases toFun_mem_or x.fmts k with e | hm
+  · exact e
+  · have := hx.bound _ hm
+    simp only at this
+    omega
+
+include hx in
+theorem wf_ok : ∀ k, stepOk (bef (gOf x) k) (gOf x k).rem = true := by
+  intro k
+  by_cases hk : k ≤ x.len
+  · exact (replayOk_iff hx.sorted x.len hx.bound).mp hx.ok k hk
+  · rw [wf_gt hx (by omega)]
+    rfl
+
+include hx in
+theorem wf_closed : bef (gOf x) (x.len + 1) = [] := by
+  unfold gOf
+  rw [← active_eq_bef hx.sorted]
+  exact hx.closed
+
+include hx in
+theorem wf_noAddEnd : (gOf x x.len).add = [] := by
+  rcases toFun_mem_or x.fmts x.len with e | hm
+  · unfold gOf; rw [e]
+  · exact hx.noAddEnd _ hm rfl
+
+include hx in
+theorem bef_settings : ∀ k, ∀ s ∈ bef (gOf x) k, s ∈ x.fmts.settings := by
+  intro k
+  induction k with
+  | zero => intro s hs; cases hs
+  | succ k ih =>
+    intro s hs
+    rw [bef_succ, stepPoint_eq (wf_nodup hx k)] at hs
+    rcases List.mem_append.mp hs with h | h
+    · exact ih s (List.mem_filter.mp h).1
+    · exact toFun_settings (Or.inl h)
+
+variable (M : Option (List Str)) (st en : Nat) (h1 : st < x.len) (h2 : st < en) (h3 : en ≤ x.len)
+
+include hx in
+theorem f0_sorted : SortedKeys (f0 x st en) :=
+  sorted_ensure (sorted_ensure hx.sorted st) en
+
+include hx in
+theorem f0_toFun (k : Nat) : Fmts.toFun (f0 x st en) k = gOf x k := by
+  unfold f0 gOf
+  rw [toFun_ensure (sorted_ensure hx.sorted st), toFun_ensure hx.sorted]
+
+include hx h1 h3 in
+theorem f0_bound : ∀ kp ∈ f0 x st en, kp.1 ≤ x.len := by
+  intro kp hkp
+  rcases mem_ensure hkp with e | hkp
+  · rw [e]; exact h3
+  · rcases mem_ensure hkp with e | hkp
+    · rw [e]; exact Nat.le_of_lt h1
+    · exact hx.bound kp hkp
+
+include hx in
+theorem f0_replay :
+    replay (f0 x st en) = tag (fun k => bef (gOf x) (k + 1)) (f0 x st en) := by
+  rw [replay_eq_map _ (f0_sorted hx st en)]
+  unfold tag
+  apply List.map_congr_left
+  intro kp _
+  rw [bef_congr (g := Fmts.toFun (f0 x st en)) (g' := gOf x) _ (fun j _ => f0_toFun hx st en j)]
+
+include hx in
+theorem out_keys : (outOf x M st en).map (·.1) = (f0 x st en).map (·.1) := by
+  unfold outOf
+  rw [removeLoop_keys, f0_replay hx, tag_keys]
+
+theorem sorted_iff_keys (f : Fmts) : SortedKeys f ↔ (f.map (·.1)).Pairwise (· < ·) := by
+  unfold SortedKeys
+  rw [List.pairwise_map]
+
+include hx in
+theorem out_sorted : SortedKeys (outOf x M st en) := by
+  rw [sorted_iff_keys, out_keys hx, ← sorted_iff_keys]
+  exact f0_sorted hx st en
+
+include hx h1 h3 in
+theorem out_bound : ∀ kp ∈ outOf x M st en, kp.1 ≤ x.len := by
+  intro kp hkp
+  have : kp.1 ∈ (outOf x M st en).map (·.1) := List.mem_map_of_mem hkp
+  rw [out_keys hx] at this
+  obtain ⟨kp', h, e⟩ := List.mem_map.mp this
+  rw [← e]
+  exact f0_bound hx st en h1 h3 kp' h
+
+include hx in
+theorem new_sorted : SortedKeys (newFmts x M st en) := sorted_filter (out_sorted hx M st en) _
+
+include hx in
+theorem new_toFun (k : Nat) : Fmts.toFun (newFmts x M st en) k = Fmts.toFun (outOf x M st en) k :=
+  toFun_filter_nonEmpty (out_sorted hx M st en) k
+
+include hx h2 in
+theorem new_spec : ∀ k, SpecAt M st en x.len (gOf x) k (Fmts.toFun (newFmts x M st en) k) := by
+  intro k
+  rw [new_toFun hx]
+  unfold outOf
+  rw [f0_replay hx]
+  refine removeLoop_spec M st en x.len (gOf x) h2 (wf_nodup hx) (wf_ok hx) (f0 x st en) 0 []
+    (f0_sorted hx st en) (fun _ _ => Nat.zero_le _) (fun k _ => f0_toFun hx st en k) ?_ ?_ (fun _ => rfl)
+    (fun h => by omega) k (Nat.zero_le _)
+  · intro _
+    exact contains_ensure_of_contains (sorted_ensure hx.sorted st) en st (contains_ensure_self hx.sorted st)
+  · intro _
+    exact contains_ensure_self (sorted_ensure hx.sorted st) en
+
+include hx in
+theorem closed_at (h : en = x.len) : bef (gOf x) (en + 1) = [] := by
+  rw [h]; exact wf_closed hx
+
+include hx h2 in
+theorem new_before (k : Nat) (hk : k ≤ st) : bef (Fmts.toFun (newFmts x M st en)) k = bef (gOf x) k :=
+  bef_before M st en x.len (gOf x) _ (new_spec hx M st en h2) k hk
+
+include hx h2 in
+theorem new_inside (k : Nat) (hk1 : st < k) (hk2 : k ≤ en) :
+    bef (Fmts.toFun (newFmts x M st en)) k = (bef (gOf x) k).filter (nsel M) :=
+  bef_inside M st en x.len (gOf x) _ h2 (wf_nodup hx) (wf_ok hx) (new_spec hx M st en h2) k hk1 hk2
+
+include hx h2 in
+theorem new_after (k : Nat) (hk : en < k) : bef (Fmts.toFun (newFmts x M st en)) k = bef (gOf x) k :=
+  bef_after M st en x.len (gOf x) _ h2 (wf_nodup hx) (wf_ok hx) (closed_at hx en) (new_spec hx M st en h2) k hk
+
+include hx h2 in
+theorem new_ok (k : Nat) :
+    stepOk (bef (Fmts.toFun (newFmts x M st en)) k) (Fmts.toFun (newFmts x M st en) k).rem = true :=
+  ok_new M st en x.len (gOf x) _ h2 (wf_nodup hx) (wf_ok hx) (closed_at hx en) (new_spec hx M st en h2) k
+
+include hx in
+/-- `active` of the new table by index -/
+theorem new_active (i : Nat) :
+    active (newFmts x M st en) i = bef (Fmts.toFun (newFmts x M st en)) (i + 1) :=
+  active_eq_bef (new_sorted hx M st en) i
+
+include hx in
+theorem old_active (i : Nat) : active x.fmts i = bef (gOf x) (i + 1) := active_eq_bef hx.sorted i
+
+include hx in
+/-- every setting of a new point comes from the old point or from the old active list -/
+theorem spec_settings {k : Nat} {q : Point} (hq : SpecAt M st en x.len (gOf x) k q) {s : Setting}
+    (hs : s ∈ q.add ∨ s ∈ q.rem) : s ∈ x.fmts.settings := by
+  have hp : ∀ t, t ∈ (gOf x k).add ∨ t ∈ (gOf x k).rem → t ∈ x.fmts.settings := fun t ht => toFun_settings ht
+  have hc : ∀ t, t ∈ bef (gOf x) (k + 1) → t ∈ x.fmts.settings := bef_settings hx (k + 1)
+  by_cases c1 : k < st
+  · rw [hq.1 c1] at hs; exact hp s hs
+  · by_cases c2 : k = st
+    · have hcur : (ids (bef (gOf x) (k + 1))).Nodup := wf_nodup hx (k + 1)
+      have hcur' := hcur
+      rw [bef_succ, stepPoint_eq (wf_nodup hx k)] at hcur'
+      have hadd := (nodup_append hcur').2.1
+      rw [hq.2.1 c2, removeAtStart_spec M _ hcur _ hadd] at hs
+      simp only at hs
+      rcases hs with h | h
+      · exact hp s (Or.inl (List.mem_filter.mp h).1)
+      · rcases List.mem_append.mp h with h | h
+        · exact hp s (Or.inr h)
+        · exact hc s (List.mem_filter.mp h).1
+    · by_cases c3 : k < en
+      · obtain ⟨R, _, e⟩ := hq.2.2.1 (by omega) c3
+        rw [e] at hs
+        unfold midPt at hs
+        simp only at hs
+        rcases hs with h | h
+        · exact hp s (Or.inl (List.mem_filter.mp h).1)
+        · exact hp s (Or.inr (removeRems_fst_subset _ _ s h))
+      · by_cases c4 : k = en
+        · obtain ⟨R, _, e⟩ := hq.2.2.2.1 (by omega) c4
+          rw [e] at hs
+          unfold endPt at hs
+          simp only at hs
+          have hcar : ∀ t, t ∈ ((bef (gOf x) (k + 1)).filter (fun s => !hasId (gOf x k).add s.id)).dropWhile
+              (fun s => !hasId (removeRems (gOf x k).rem R).2 s.id) → t ∈ x.fmts.settings := by
+            intro t ht
+            exact hc t (List.mem_filter.mp ((List.dropWhile_sublist _).subset ht)).1
+          split at hs
+          · simp only at hs
+            rcases hs with h | h
+            · rcases List.mem_append.mp h with h | h
+              · exact hcar s h
+              · exact hp s (Or.inl h)
+            · rcases List.mem_append.mp h with h | h
+              · exact hp s (Or.inr (removeRems_fst_subset _ _ s h))
+              · exact hcar s (List.mem_filter.mp h).1
+          · simp only at hs
+            rcases hs with h | h
+            · exact hp s (Or.inl h)
+            · exact hp s (Or.inr (removeRems_fst_subset _ _ s h))
+        · rw [hq.2.2.2.2 (by omega)] at hs; exact hp s hs
+
+include hx h2 in
+theorem new_settings : ∀ s ∈ (newFmts x M st en).settings, s ∈ x.fmts.settings := by
+  intro s hs
+  obtain ⟨kp, hkp, h⟩ := mem_settings.mp hs
+  have e : Fmts.toFun (newFmts x M st en) kp.1 = kp.2 := toFun_of_mem (new_sorted hx M st en) hkp
+  have := new_spec hx M st en h2 kp.1
+  rw [e] at this
+  exact spec_settings hx M st en this h
+
+include hx h1 h2 h3 in
+theorem new_wf : WF { x with fmts := newFmts x M st en } := by
+  have hb : ∀ kp ∈ newFmts x M st en, kp.1 ≤ x.len := fun kp hkp =>
+    out_bound hx M st en h1 h3 kp (List.mem_filter.mp hkp).1
+  have hact : ∀ i, active (newFmts x M st en) i = active x.fmts i ∨
+      active (newFmts x M st en) i = (active x.fmts i).filter (nsel M) := by
+    intro i
+    rw [new_active hx, old_active hx]
+    by_cases c1 : i + 1 ≤ st
+    · exact Or.inl (new_before hx M st en h2 _ c1)
+    · by_cases c2 : i + 1 ≤ en
+      · exact Or.inr (new_inside hx M st en h2 _ (by omega) c2)
+      · exact Or.inl (new_after hx M st en h2 _ (by omega))
+  refine ⟨new_sorted hx M st en, hb, ?_, ?_, ?_, ?_, ?_⟩
+  · -- noAddEnd
+    intro kp hkp hk
+    have e : Fmts.toFun (newFmts x M st en) kp.1 = kp.2 := toFun_of_mem (new_sorted hx M st en) hkp
+    have hsp := new_spec hx M st en h2 kp.1
+    rw [e] at hsp
+    have hk' : kp.1 = x.len := hk
+    by_cases c : kp.1 = en
+    · obtain ⟨R, _, e⟩ := hsp.2.2.2.1 (by omega) c
+      rw [e]
+      unfold endPt
+      have : ¬ (en ≠ x.len ∧ (!(removeRems (gOf x kp.1).rem R).2.isEmpty) = true) := by
+        intro h; exact h.1 (by omega)
+      simp only [this, if_false]
+      rw [hk']
+      exact wf_noAddEnd hx
+    · rw [hsp.2.2.2.2 (by omega), hk']
+      exact wf_noAddEnd hx
+  · -- ok
+    exact (replayOk_iff (new_sorted hx M st en) x.len hb).mpr (fun k _ => new_ok hx M st en h2 k)
+  · -- nodup
+    intro i
+    rcases hact i with e | e
+    · simp only; rw [e]; exact hx.nodup i
+    · simp only; rw [e]; exact nodup_filter (hx.nodup i) _
+  · -- closed
+    show active (newFmts x M st en) x.len = []
+    rw [new_active hx, new_after hx M st en h2 _ (by omega)]
+    exact wf_closed hx
+  · -- coherent
+    intro s hs t ht
+    exact hx.coherent s (new_settings hx M st en h2 s hs) t (new_settings hx M st en h2 t ht)
+
+end WFx
+
 end Remove
